@@ -845,7 +845,9 @@ impl IterativeDeepeningSearch {
                 let exec_result = exec_dfs.search_with_execution(root_goal, facts, kb);
                 // Aggregate explored goals
                 let mut final_result = exec_result;
-                final_result.goals_explored += cumulative_goals - final_result.goals_explored;
+                // probes and the executing search both count (the subtraction underflowed whenever
+                // the executing search explored more goals than the probes had)
+                final_result.goals_explored += cumulative_goals;
                 return final_result;
             }
         }
